@@ -145,7 +145,8 @@ class Program(object):
                 self.funcs[d["name"]] = d
         elif k == "RecordDecl":
             if d.get("completeDefinition") and d.get("name"):
-                self.structs["struct " + d["name"]] = [(f["name"], f["type"]) for f in d.get("inner", []) if f.get("kind") == "FieldDecl"]
+                self.structs["struct " + d["name"]] = [(f["name"], f["type"]) for f in d.get("inner", [])
+                                                       if f.get("kind") == "FieldDecl" and "name" in f]
         elif k == "TypedefDecl":
             self.typedefs[d["name"]] = d["type"]
         elif k == "EnumDecl":
@@ -206,6 +207,13 @@ class StrLit(object):
         self.s = s
 
 
+class Ref(object):
+    """the address of an lvalue: (root variable, path); the only pointer values the subset knows besides string literals"""
+
+    def __init__(self, lv):
+        self.lv = (lv[0], list(lv[1]))
+
+
 def bv(v, w):
     return z3.BitVecVal(v % (1 << w), w)
 
@@ -258,6 +266,16 @@ def ite_val(c, a, b):
         return [ite_val(c, x, y) for x, y in zip(a, b)]
     if a is None or b is None:
         return a if b is None else b
+    if isinstance(a, Ref) and isinstance(b, Ref) and a.lv[0] == b.lv[0] and len(a.lv[1]) == len(b.lv[1]):
+        path = []
+        for x, y in zip(a.lv[1], b.lv[1]):
+            if isinstance(x, Val) and isinstance(y, Val):
+                path.append(ite_val(c, x, y))
+            elif x == y:
+                path.append(x)
+            else:
+                raise Unsupported("cannot merge references")
+        return Ref((a.lv[0], path))
     raise Unsupported("cannot merge %r / %r" % (a, b))
 
 
@@ -271,6 +289,8 @@ class State(object):
 
 
 def _copy(v):
+    if isinstance(v, Ref):
+        return v
     if isinstance(v, dict):
         return dict((k, _copy(x)) for k, x in v.items())
     if isinstance(v, list):
@@ -315,6 +335,7 @@ class Interp(object):
         self.contract_calls = {}    # function name -> times used through a contract
         self.assume = []            # global assumptions (preconditions) used to decide loop conditions
         self.depth = 0
+        self.heap = {}              # name -> value: read-only objects reachable through Ref((name, path))
 
     # ---- helpers ------------------------------------------------------------------------------------------
     def event(self, kind, cond, info=""):
@@ -489,7 +510,18 @@ class Interp(object):
             return (node["referencedDecl"]["id"], [])
         if k == "MemberExpr":
             if node.get("isArrow"):
-                raise Unsupported("-> access")
+                # p->f: p holds a reference to a struct (the address of an lvalue taken with &, or a struct bound to a pointer
+                # parameter by the harness)
+                base = node["inner"][0]
+                pv = self.rvalue(self.expr(base, state), state)
+                if isinstance(pv, Ref):
+                    return (pv.lv[0], list(pv.lv[1]) + [node["name"]])
+                b = base
+                while b["kind"] in ("ImplicitCastExpr", "ParenExpr"):
+                    b = b["inner"][0]
+                if b["kind"] == "DeclRefExpr" and isinstance(pv, dict):
+                    return (b["referencedDecl"]["id"], [node["name"]])
+                raise Unsupported("-> through a pointer that is not a reference to a struct")
             root, path = self.lvalue(node["inner"][0], state)
             return (root, path + [node["name"]])
         if k == "ArraySubscriptExpr":
@@ -497,7 +529,15 @@ class Interp(object):
             while base["kind"] in ("ImplicitCastExpr", "ParenExpr"):
                 base = base["inner"][0]
             root, path = self.lvalue(base, state)
-            idx = self.expr(node["inner"][1], state)
+            idx = self.rvalue(self.expr(node["inner"][1], state), state)
+            cur = state.env.get(root, self.heap.get(root))
+            for p_ in path:
+                if cur is None:
+                    break
+                cur = cur[p_] if not isinstance(p_, Val) else None
+            if isinstance(cur, Ref):
+                # the base is a pointer variable holding a reference to an array (p[i] with p = array field / &array[0])
+                return (cur.lv[0], list(cur.lv[1]) + [idx])
             return (root, path + [idx])
         if k == "ImplicitCastExpr":
             return self.lvalue(node["inner"][0], state)
@@ -507,6 +547,8 @@ class Interp(object):
         root, path = lv
         if root in state.env:
             v = state.env[root]
+        elif root in self.heap:
+            v = self.heap[root]         # read-only objects handed in by the harness (reached through references)
         else:
             v = self.global_value(root)
         for p in path:
@@ -661,7 +703,12 @@ class Interp(object):
             if isinstance(v, Val) and z3.is_const(v.t) and v.t.decl().name().startswith("undef!"):
                 self.event("uninit", state.pc, "read of an uninitialised local")
             return v
-        if ck in ("ArrayToPointerDecay", "FunctionToPointerDecay", "NoOp", "BitCast", "NullToPointer"):
+        if ck == "ArrayToPointerDecay":
+            v = self.expr(inner, state)
+            if isinstance(v, tuple) and v and v[0] == "lvalue":
+                return Ref(v[1])
+            return v
+        if ck in ("FunctionToPointerDecay", "NoOp", "BitCast", "NullToPointer"):
             return self.expr(inner, state)
         v = self.rvalue(self.expr(inner, state), state)
         if ck == "IntegralCast":
@@ -691,6 +738,8 @@ class Interp(object):
             new = Val(old.t + one if op == "++" else old.t - one, old.ct)
             self.store(lv, new, state)
             return old if node.get("isPostfix") else new
+        if op == "&":
+            return Ref(self.lvalue(sub, state))
         v = self.rvalue(self.expr(sub, state), state)
         if op == "-":
             return Val(-v.t, ct)
@@ -700,8 +749,6 @@ class Interp(object):
             return Val(~v.t, ct)
         if op == "!":
             return Val(z3.If(to_bool(v), bv(0, ct.width), bv(1, ct.width)), ct)
-        if op == "&":
-            return v
         raise Unsupported("unary %s" % op)
 
     def e_BinaryOperator(self, node, state):
